@@ -2,6 +2,7 @@ package props
 
 import (
 	"fmt"
+	"go/token"
 	"go/types"
 	"sort"
 	"strings"
@@ -1574,4 +1575,265 @@ func (h H) logReadersComplete(rule string) {
 	h.C.Check(rule+" end-signalled", "(*leader).addReplication goroutine", okDone, h.fpos(ar), "the replication goroutine does not close its done channel when runLoop has returned")
 	ok, why := h.storesOnEveryPath(ar, "new:replication#1.done", func(v string, _ *ssa.Store) bool { return strings.HasPrefix(v, "makechan") })
 	h.C.Check(rule+" end-signalled", "(*leader).addReplication done channel", ok, h.fpos(ar), "a replication is created without its done channel: "+why)
+}
+
+// clearLogResets (C04.10 / C02.5c): storage.clearLog — the install handler's
+// "this log is replaced by the snapshot" — resets the log to the snapshot
+// index on every path. A log that merely ends at the snapshot index may hold
+// another term there; keeping it puts the next entries behind a conflicting one.
+func (h H) clearLogResets(rule string) {
+	fn := h.fn("raft:(*storage).clearLog")
+	fi := h.P.Info(fn)
+	reset := h.fn("log:(*Log).Reset")
+	n := 0
+	for k, r := range core.Returns(fn) {
+		if len(r.Results) != 1 || !(isNilConst(r.Results[0]) || fi.Sym(r.Results[0]).String() == "nil") {
+			continue
+		}
+		n++
+		res := fi.PrecededBy(r, func(in ssa.Instruction) bool {
+			c, ok := in.(ssa.CallInstruction)
+			return ok && h.P.IsCallTo(in, reset) && strings.HasSuffix(h.argStr(c, 1), "#0") && strings.Contains(h.argStr(c, 1), "latest(")
+		})
+		h.C.Check(rule, fmt.Sprintf("(*storage).clearLog success-return#%d", k+1), res.OK, h.pos(r), "clearLog can report success without resetting the log to the latest snapshot's index: entries the snapshot replaces stay in the log")
+	}
+	h.C.Floor(rule+" (success returns of clearLog)", n, 1)
+}
+
+// barrierRoundTrips (C09.5c / C15.10c): Raft.lastApplied is the barrier the
+// install handler relies on before it discards or compacts the log: its
+// answer must have travelled through the state machine's queue (send on
+// fsm.ch, wait for the task) on every path — an empty queue does not mean an
+// idle state machine.
+func (h H) barrierRoundTrips(rule string) {
+	fn := h.fn("raft:(*Raft).lastApplied")
+	fi := h.P.Info(fn)
+	n := 0
+	for k, r := range core.Returns(fn) {
+		n++
+		sent := fi.PrecededBy(r, func(in ssa.Instruction) bool {
+			s, ok := in.(*ssa.Send)
+			return ok && strings.HasSuffix(fi.Sym(s.Chan).String(), ".fsm.ch")
+		})
+		waited := fi.PrecededBy(r, func(in ssa.Instruction) bool {
+			u, ok := in.(*ssa.UnOp)
+			return ok && u.Op == token.ARROW && strings.HasSuffix(fi.Sym(u.X).String(), ".done")
+		})
+		h.C.Check(rule, fmt.Sprintf("(*Raft).lastApplied return#%d", k+1), sent.OK && waited.OK, h.pos(r), fmt.Sprintf("lastApplied can answer without a round trip through the state machine's queue (sent: %v, waited: %v): the state machine may still be reading the log the caller is about to discard", sent.OK, waited.OK))
+	}
+	h.C.Floor(rule+" (returns of lastApplied)", n, 1)
+}
+
+// voteResultsUnderCurrentState (C01.11): stateLoop hands a vote reply to the
+// candidate only after re-checking that the node still is in the state the
+// loop was entered for; a second reply consumed in the same turn would be
+// counted after the first one made the node step down (a leader of a term
+// nobody voted for it in).
+func (h H) voteResultsUnderCurrentState(rule string) {
+	sl := h.fn("raft:(*Raft).stateLoop")
+	fi := h.P.Info(sl)
+	ovr := h.fn("raft:(*candidate).onVoteResult")
+	n := 0
+	for k, c := range h.P.CallsTo(sl, ovr) {
+		n++
+		in := c.(ssa.Instruction)
+		// forward from the call: another call must not be reachable without
+		// crossing the loop's state test
+		bad := ""
+		seen := map[*ssa.BasicBlock]bool{}
+		var walk func(b *ssa.BasicBlock, i int)
+		walk = func(b *ssa.BasicBlock, i int) {
+			for ; i < len(b.Instrs); i++ {
+				if h.P.IsCallTo(b.Instrs[i], ovr) {
+					bad = h.pos(b.Instrs[i])
+					return
+				}
+			}
+			for si, s := range b.Succs {
+				if a, ok := fi.EdgeAtom(core.Edge{From: b, Succ: si}); ok && (a.L == "Raft.state" || a.R == "Raft.state") {
+					continue
+				}
+				if !seen[s] {
+					seen[s] = true
+					walk(s, 0)
+				}
+			}
+		}
+		idx := 0
+		for i, x := range in.Block().Instrs {
+			if x == in {
+				idx = i + 1
+			}
+		}
+		walk(in.Block(), idx)
+		h.C.Check(rule, h.site(sl, ovr, k), bad == "", h.pos(in), "a second vote reply can be handed to the candidate ("+bad+") without the state loop re-checking the node's state in between: replies queued behind one that made the node step down are still counted")
+	}
+	h.C.Floor(rule+" (onVoteResult in stateLoop)", n, 1)
+	h.onlyCallers(rule+" who-may-call", "raft:(*candidate).onVoteResult", "(*Raft).stateLoop")
+}
+
+// backOffCapped (C17.13): a replication that keeps failing retries with a
+// growing wait; the wait stays below the follower's election timeout (the
+// caller passes hbTimeout/k, k >= 2, as the cap and backOff never returns more
+// than the cap) — otherwise a follower that comes back hears nothing from the
+// live leader for longer than its election timeout, campaigns and deposes it.
+func (h H) backOffCapped(rule string) {
+	fn := h.fn("raft:backOff")
+	fi := h.P.Info(fn)
+	n := 0
+	for k, r := range core.Returns(fn) {
+		n++
+		v := fi.Sym(r.Results[0]).String()
+		ok := v == "$1"
+		if !ok {
+			res := fi.MustCross(r, func(a core.Atom) bool {
+				return a.Implies(core.MkAtom(v, "<=", "$1"))
+			})
+			ok = res.OK
+		}
+		h.C.Check(rule+" never-above-the-cap", fmt.Sprintf("backOff return#%d", k+1), ok, h.pos(r), "backOff can return a wait ("+core.Short(v, 80)+") that was not compared with the cap after it was computed")
+	}
+	h.C.Floor(rule+" (returns of backOff)", n, 2)
+	m := 0
+	for _, f := range h.P.Funcs() {
+		if f.Pkg == nil || f.Pkg.Pkg.Name() != "raft" {
+			continue
+		}
+		for k, c := range h.P.CallsTo(f, fn) {
+			if c.Parent() != f {
+				continue
+			}
+			m++
+			arg := h.argStr(c, 1)
+			var div int
+			okCap := false
+			if i := strings.LastIndex(arg, "hbTimeout / Duration("); i >= 0 {
+				if _, err := fmt.Sscanf(arg[i:], "hbTimeout / Duration(%d)", &div); err == nil && div >= 2 {
+					okCap = true
+				}
+			}
+			h.C.Check(rule+" cap-below-election-timeout", h.site(f, fn, k), okCap, h.pos(c.(ssa.Instruction)), "the retry wait of a failing replication is capped by "+arg+", not by hbTimeout/k (k >= 2)")
+		}
+	}
+	h.C.Floor(rule+" (callers of backOff)", m, 1)
+}
+
+// bootstrapAdoptsOnlyStored (C19.5): Raft.bootstrap adopts the configuration
+// (changeConfig) and turns candidate only after storage.bootstrap stored the
+// configuration entry; on the failure exit nothing is adopted. Otherwise the
+// node reports a latest configuration that is in neither its log nor a
+// snapshot.
+func (h H) bootstrapAdoptsOnlyStored(rule string) {
+	fn := h.fn("raft:(*Raft).bootstrap")
+	fi := h.P.Info(fn)
+	n := 0
+	core.Instrs(fn, func(in ssa.Instruction) {
+		c, ok := in.(ssa.CallInstruction)
+		if !ok {
+			return
+		}
+		sc := c.Common().StaticCallee()
+		if sc == nil {
+			return
+		}
+		switch h.name(sc) {
+		case "(*Raft).changeConfig", "(*Raft).setState":
+		default:
+			return
+		}
+		n++
+		r := fi.MustCross(in, func(a core.Atom) bool {
+			return a.Op == "==" && a.R == "nil" && strings.HasPrefix(a.L, "(*storage).bootstrap(")
+		})
+		h.C.Check(rule, fmt.Sprintf("(*Raft).bootstrap → %s#%d", h.name(sc), n), r.OK, h.pos(in), "the bootstrap configuration is adopted (or the node turns candidate) although storing its entry may have failed: "+r.Witness)
+	})
+	h.C.Floor(rule+" (effects of Raft.bootstrap)", n, 2)
+}
+
+// lockNotTakenFromHolder (C20.4): lockDir removes only its own temporary file.
+// The lock file itself is removed by unlockDir alone, which only a caller that
+// holds the lock runs (after a successful lockDir): a refused attempt that
+// removed the lock would let the next attempt in while the holder still serves.
+func (h H) lockNotTakenFromHolder(rule string) {
+	fn := h.fn("raft:lockDir")
+	n := 0
+	check := func(f *ssa.Function) {
+		ffi := h.P.Info(f)
+		core.Instrs(f, func(in ssa.Instruction) {
+			c, ok := in.(ssa.CallInstruction)
+			if !ok {
+				return
+			}
+			sc := c.Common().StaticCallee()
+			if sc == nil || sc.Pkg == nil || sc.Pkg.Pkg.Path() != "os" || !strings.HasPrefix(sc.Name(), "Remove") {
+				return
+			}
+			n++
+			arg := ffi.Sym(c.Common().Args[0]).String()
+			own := strings.Contains(arg, "Name(") || strings.Contains(arg, "TempFile")
+			h.C.Check(rule+" removes-only-its-temp-file", fmt.Sprintf("%s os.%s#%d", h.name(core.Root(f)), sc.Name(), n), own, h.pos(in), "lockDir removes "+core.Short(arg, 80)+": only the temporary file it created may be removed there (the lock file belongs to whoever holds the lock)")
+		})
+	}
+	check(fn)
+	for _, cl := range h.P.DeferredClosures(fn) {
+		check(cl)
+	}
+	h.C.Floor(rule+" (removals in lockDir)", n, 1)
+	// unlockDir runs only after a lockDir that succeeded
+	ul := h.fn("raft:unlockDir")
+	m := 0
+	for _, s := range h.P.Callers(ul) {
+		m++
+		root := core.Root(s.Fn)
+		rfi := h.P.Info(root)
+		okAfter := false
+		for _, c := range h.P.CallsTo(root, fn) {
+			// the unlock (or the defer that registers it) lies behind lockDir(...) == nil
+			var at ssa.Instruction = s.Instr
+			if s.Fn != root {
+				for _, d := range deferSitesOf(root, s.Fn) {
+					at = d
+				}
+			}
+			r := rfi.MustCross(at, func(a core.Atom) bool {
+				return a.Op == "==" && a.R == "nil" && strings.HasPrefix(a.L, "lockDir(")
+			})
+			if r.OK && core.Dominates(c.(ssa.Instruction), at) {
+				okAfter = true
+			}
+		}
+		h.C.Check(rule+" unlock-only-by-the-holder", fmt.Sprintf("%s → unlockDir#%d", h.name(root), m), okAfter, h.pos(s.Instr), "the storage lock can be removed by a caller that did not take it (unlock not behind a successful lockDir)")
+	}
+	h.C.Floor(rule+" (callers of unlockDir)", m, 2)
+}
+
+// deferSitesOf: the defer instructions of root that run closure cl.
+func deferSitesOf(root, cl *ssa.Function) []ssa.Instruction {
+	var out []ssa.Instruction
+	core.Instrs(root, func(in ssa.Instruction) {
+		if d, ok := in.(*ssa.Defer); ok && core.ClosureOf(d.Call.Value) == cl {
+			out = append(out, in)
+		}
+	})
+	return out
+}
+
+// releaseWaitsSnapshot (C20.5): Serve unlocks the storage directory when it
+// returns; Raft.release, which runs before, waits for a snapshot that is being
+// written on every path on which one is in progress — otherwise the old
+// instance still writes, publishes and prunes snapshots in a directory that
+// another instance may already have locked.
+func (h H) releaseWaitsSnapshot(rule string) {
+	rrel := h.fn("raft:(*Raft).release")
+	ost := h.fn("raft:(*Raft).onSnapshotTaken")
+	fi := h.P.Info(rrel)
+	n := 0
+	for k, r := range core.Returns(rrel) {
+		n++
+		res := fi.MustCrossOrPass(r, func(a core.Atom) bool {
+			return a.Implies(core.MkAtom("Raft.snapTakenCh", "==", "nil"))
+		}, nil, func(in ssa.Instruction) bool { return h.P.IsCallTo(in, ost) })
+		h.C.Check(rule, fmt.Sprintf("(*Raft).release return#%d", k+1), res.OK, h.pos(r), "Raft.release can return while a snapshot is being written, without waiting for it (Serve then unlocks the directory under the writer): "+res.Witness)
+	}
+	h.C.Floor(rule+" (returns of Raft.release)", n, 1)
 }
